@@ -227,3 +227,89 @@ PROPS["C15"] = dict(harness="reqmod", module="Cases.ReqCheck", env={"VERIF_PROFI
     rule="registration sets over registry/global/core with overlaps, files named like modules next to scripts with relative and absolute names, "
          "3-9 requests mixing bare, node: and file spellings from JavaScript and Go; loader invocation counters and markers observed",
     trusted=_REQ_TRUST, assumptions=["global registrations are process-wide and fixed for the run"])
+
+
+# ---------------------------------------------------------------- event loop (C03..C08): one model, one harness, six profiles
+_LOOP_CODES = {
+    "Diff1": "the model cannot take an observed event (program order or guard differs)",
+    "Diff2": "white-box state before a grant (jobCount, len(jobs), len(auxJobs), token, canRun, running, terminated) differs from the model",
+    "Diff5": "the callbacks started by a step differ from those the model predicts",
+    "Diff6": "model: not everything accepted was executed at the end of the run", "Diff7": "model job count differs at the end",
+    "SpecFail1": "two callbacks of one loop were executing at the same time",
+    "SpecFail2": "a callback started while the loop was stopped (not running, not inside Terminate)",
+    "SpecFail3": "RunOnLoop callbacks did not run exactly once each in the order their submissions took effect (or a refused one ran)",
+    "SpecFail4": "a timeout or immediate callback ran twice",
+    "SpecFail5": "a callback ran after its job had been cleared / cancelled by Terminate",
+    "SpecFail6": "Run() returned while live jobs remained",
+    "SpecFail7": "Stop() returned a number different from the live jobs",
+    "SpecFail8": "RunOnLoop/SetTimeout/SetInterval result does not match the terminated state (accepted while terminated, or refused while not)",
+    "SpecFail9": "jobCount is not zero after the final Terminate",
+    "SpecFail10": "loop.jobs is not empty after the final Terminate",
+    "Implstuck": "no thread can make progress (a call that must return does not)",
+    "Implcallbacks-overlap": "callback started while another was executing (harness counter)",
+    "Impltimer-early": "a timer callback ran before its delay had elapsed",
+    "Impltimer-arguments-wrong": "a timer callback did not receive the extra arguments given at creation",
+    "Implaccepted-function-left-waiting": "queue non-empty, wake-up channel empty, loop blocked in select, nobody about to wake it",
+    "Implapi-call-panicked": "an API call panicked", "Implgoroutine-left-after-terminate": "a timer/interval goroutine outlived Terminate()",
+    "Impljobs-left-after-terminate": "loop.jobs not empty when Terminate returned", "Impljobs-index-broken": "jobs[k].idx != k",
+}
+_LOOP_TRUST = ["Go runtime: goroutine scheduling between verifPoints is controlled by parking every thread at every point and granting one at a time; "
+               "stability (all threads parked or blocked) is read from runtime.Stack goroutine states",
+               "time.Timer/Ticker: real timers with 0-3 ms delays; whether Stop() won the race with an expiry is observed from len(loop.jobs)",
+               "white-box reads through a file injected with go build -overlay (never written into the repository)",
+               "goja: calling JS functions from Go, RunString"]
+_LOOP_NOTE = ("Proof is about Model/Loop.v, a transition system over the 33 verifPoint names with program counters for run(), Stop() and Terminate(), "
+              "the fields of EventLoop, the registry and the runtime side of every timer (armed / goroutine delivering / done). Atomicity between two "
+              "points of a thread is the modelling assumption (each segment touches shared state under one lock or owns it). Tie: Gen/LoopSkeleton.v "
+              "(every function of eventloop.go as text + order of points, regenerated each run, compared in <P>_source_tie) and the replay of "
+              "controlled executions with a white-box snapshot before every grant. Not modelled: real time (only the delay arithmetic), goja's "
+              "runtime, panics inside callbacks, StartInForeground is modelled but not exercised.")
+
+
+def _loop(profile, level_text, rule, relevant, assumptions):
+    return dict(harness="loop", module="Cases.LoopCheck", env={"VERIF_PROFILE": profile}, overlay=True, shard=30, codes=_LOOP_CODES,
+                relevant=set(relevant) | {"Implhost-process-died"}, level_text=level_text, level_note=_LOOP_NOTE, rule=rule, trusted=_LOOP_TRUST,
+                assumptions=assumptions, harness_timeout=1500)
+
+
+_LOOP_RULE = ("scenario = 1-3 submitter goroutines (RunOnLoop/SetTimeout/SetInterval/ClearTimeout/ClearInterval%s) x a controller "
+              "(Start/Stop/Run/Terminate cycles, real-time idling) x callback programs nested to depth 2 (RunOnLoop, setTimeout/setInterval/"
+              "setImmediate, clear* with matching and non-matching handles, throw%s), run under a seeded PCT-style scheduler that grants one parked "
+              "thread at a time; every run ends with Start, idle, Terminate; non-trivial = at least one pre-emption; distinct by hash of the trace")
+
+PROPS["C03"] = _loop("overlap",
+    "C03_single_owner / C03_stopped_no_run_thread / C03_work_needs_owner / C03_none_while_stopped / C03_stop_returns_stopped / "
+    "C03_new_run_only_after_exit: in every state reachable by any interleaving, callbacks and queued functions are started only by the thread "
+    "inside run() or by Terminate, the two never coexist, and none exists between the return of Stop() and the next start",
+    _LOOP_RULE % ("", ""), ["SpecFail1", "SpecFail2", "Implcallbacks-overlap", "Implapi-call-panicked", "Implstuck"],
+    ["Start/Run are not called concurrently with Stop/Terminate (documented contract)"])
+PROPS["C04"] = _loop("fifo",
+    "C04_queue_is_history (executed ++ batch ++ queue = accepted, in every reachable state, across Stop/Start/Run/Terminate), C04_executed_prefix, "
+    "C04_executed_once, C04_refused_never_executed, C04_accept_iff_not_terminated, C04_no_lost_wakeup / C04_blocked_with_work_has_waker (a loop "
+    "blocked in select with queued work always has a waker on its way), C04_terminate_runs_all_accepted",
+    _LOOP_RULE % ("", ""), ["SpecFail3", "SpecFail8", "Implaccepted-function-left-waiting", "Implstuck"],
+    ["submission ids are pairwise distinct (one per call)"])
+PROPS["C05"] = _loop("timers",
+    "C05_one_shot_at_most_once, C05_cancelled_never_runs_again (over every continuation, restarts included), C05_clear_cancels, C05_clear_harmless, "
+    "C05_live_timeout_registered, C05_delay_exact / C05_delay_never_shorter (msToDuration = milliseconds x 10^6 saturating, from the translated "
+    "source), C05_interval_period",
+    _LOOP_RULE % ("", ""), ["SpecFail4", "SpecFail5", "Impltimer-early", "Impltimer-arguments-wrong", "Implstuck"],
+    ["'always eventually' (liveness under real time) is exercised by the runs, not proved; never-early in real time rests on time.AfterFunc/NewTicker"])
+PROPS["C06"] = _loop("count",
+    "C06_count_exact (jobCount = live jobs + 1 while a background loop counts itself, in every reachable state), C06_stop_returns_live, "
+    "C06_run_leaves_iff_quiescent (exit taken iff no live job), C06_background_never_quiesces",
+    _LOOP_RULE % (", StopNoWait", ", StopNoWait"), ["SpecFail6", "SpecFail7", "SpecFail9", "Implstuck"],
+    ["a Go-side SetTimeout/SetInterval counts from the moment its start job runs on the loop"])
+PROPS["C07"] = _loop("stop",
+    "C07_stop_request_not_lost (token still in the channel or the run thread is on the exit path), C07_exit_path_progress (every run-thread step on "
+    "that path decreases a lexicographic measure), C07_stop_noop_when_not_running, C07_lifecycle_keeps_work, C07_pending_timeout_kept, "
+    "C07_queue_kept, C07_timeout_once",
+    _LOOP_RULE % (", StopNoWait", ", StopNoWait"), ["SpecFail3", "SpecFail4", "Implstuck", "Implapi-call-panicked"],
+    ["termination of Stop() under an unfair select (job arm chosen for ever while intervals tick) is probabilistic in Go; proved: the request is "
+     "never lost and the exit path is finite"])
+PROPS["C08"] = _loop("terminate",
+    "C08_terminate_leaves_nothing (registry empty, every job's runtime timer/goroutine gone, every timeout/interval cancelled, queue drained), "
+    "C08_cancelled_never_runs_again, C08_helpers_registered, C08_terminated_until_restart, C08_refuses_while_terminated, C08_restart_accepts",
+    _LOOP_RULE % ("", ""), ["SpecFail5", "SpecFail8", "SpecFail10", "Implgoroutine-left-after-terminate", "Impljobs-left-after-terminate",
+                           "Impljobs-index-broken", "Implstuck"],
+    ["Terminate is not called concurrently with Stop*/Start/Run (documented contract)"])
